@@ -1067,9 +1067,28 @@ def m_try_branch(eng, st, fr, t, name, rname, args):
     return out
 
 
+def _err_ty(s):
+    """error type of a `Result<T, E>` type string (top-level second argument)"""
+    if not s.startswith("core::result::Result<"):
+        return None
+    inner = s[len("core::result::Result<"):-1]
+    depth = 0
+    for i, ch in enumerate(inner):
+        if ch in "<([":
+            depth += 1
+        elif ch in ">)]":
+            depth -= 1
+        elif ch == "," and depth == 0:
+            return inner[i + 1:].strip()
+    return None
+
+
 def m_from_residual(eng, st, fr, t, name, rname, args):
     v = eng.resolve(st, args[0])
     if isinstance(v, EnumV) and v.name == "Err":
+        g = (t or {}).get("callee", {}).get("gargs", [])
+        if len(g) == 2 and _err_ty(g[0]) is not None and _err_ty(g[0]) == _err_ty(g[1]):
+            return mk_err(v.fields.get(0, TOP))  # identity conversion
         return mk_err(AggV("From::from", {0: v.fields.get(0, TOP)}))
     if isinstance(v, EnumV) and v.name == "None":
         return mk_option(None)
